@@ -23,7 +23,7 @@ import conv2coq as T
 PROP = "C01"
 META = dict(
     technique="Coq proof over a model TRANSLATED from conv.rs on every run (one tactic closes all 132 dispatched conversions against the rescaling specification; consequences proved from the specification) + coqc-evaluated model vs crate correspondence in debug and release + i128 specification oracle sweeps",
-    text="translate/conv2coq.py parses every conversions!/impl_from_sample! table of dasp_sample/src/conv.rs (and the format facts of types.rs / lib.rs) into shallow Gallina with explicit machine-integer semantics (checked arithmetic = debug build, wrapping = release, `as` and `<<` wrap, `>>` floors); Coq 8.16.1 proves, for all 132 ordered pairs and every in-range source value, that what Sample::to_sample dispatches to returns floor(amplitude * 2^(bits d - bits s)) re-offset, without overflow panic, in both build profiles; in-range, monotonicity, equilibrium, MIN/MAX, lossless widening and the via-intermediate law are proved from that formula for all formats. The translator is validated by running the generated model inside coqc against the real crate (public trait dispatch, both profiles) and the crate against an independent i128 oracle of the formula.",
+    text="translate/conv2coq.py parses every conversions!/impl_from_sample! table of dasp_sample/src/conv.rs (and the format facts of types.rs / lib.rs) into shallow Gallina with explicit machine-integer semantics (checked arithmetic = debug build, wrapping = release, `as` and `<<` wrap, `>>` floors); Coq 8.16.1 proves, for all 132 ordered pairs and every in-range source value, that what Sample::to_sample dispatches to returns floor(amplitude * 2^(bits d - bits s)) re-offset, without overflow panic, in both build profiles; in-range, monotonicity, equilibrium, MIN/MAX, lossless widening and the via-intermediate law are proved from that formula for all formats. The 12 same-format conversions (the blanket identity impl, which no table row may overlap) return the value itself (c01_same_format). The translator is validated by running the generated model inside coqc against the real crate (every public entry point -- Sample::to_sample / from_sample, ToSample::to_sample_, FromSample::from_sample_, the same through a Duplex<_> bound only, and the module function conv::<src>::to_<dst> -- must return the same value; debug, release and relchk profiles) and the crate against an independent i128 oracle of the formula.",
     note="Trusted: Coq kernel; translate/conv2coq.py (validated only by the correspondence); Sample/Rint.v as the meaning of Rust's integer operators; harness + generators. Axioms: none. The statement's 'each extreme to the matching extreme' is false for MAX under widening (127i8 -> 32512i16 by the rescaling formula itself); proved instead: MAX -> MAX when narrowing, MAX -> MAX - (2^k - 1) when widening by k bits.",
     design="6/C01")
 HEADER = "From Dasp Require Import Sample.ConvRun.\nRequire Import Uint63."
